@@ -70,7 +70,7 @@ class Hist:
     """All objects of one history (never touches a repository)."""
 
     __slots__ = ("dag", "n", "objs", "commits", "trees", "subs", "blobs", "common", "tag", "tag2", "x", "xtree",
-                 "xblob", "own", "tips", "anc", "universe", "name", "ids")
+                 "xblob", "own", "tips", "anc", "universe", "name", "ids", "families")
 
 
 _HMEMO = {}
@@ -128,12 +128,14 @@ def _trees(files, blobs_by_name):
     return root, None
 
 
-def history(dag, salt=b"") -> Hist:
+def history(dag, salt=b"", families=None) -> Hist:
+    """families: default restriction of the battery for this history (None = the whole battery)."""
     dag = tuple(tuple(p) for p in dag)
-    key = (dag, salt)
+    key = (dag, salt, None if families is None else tuple(sorted(families)))
     if key in _HMEMO:
         return _HMEMO[key]
     h = Hist()
+    h.families = None if families is None else frozenset(families)
     h.dag, h.n = dag, len(dag)
     n = h.n
     for i, ps in enumerate(dag):
@@ -217,8 +219,10 @@ def _open(path):
     return Repo(path)
 
 
-def build_layout(h: Hist, layout, path):
-    """Create the bare repository for `h` in `path` with the given physical layout; loose refs."""
+def build_layout(h: Hist, layout, path, reverse=False):
+    """Create the bare repository for `h` in `path` with the given physical layout; loose refs.
+    reverse: hand the objects of every pack to add_objects() in the opposite order — dulwich names a
+    pack after the SET of its object ids, so the pack gets the same name and another layout."""
     from dulwich.repo import Repo
 
     os.makedirs(path)
@@ -240,7 +244,7 @@ def build_layout(h: Hist, layout, path):
 
         def pack(ids):
             if ids:
-                st.add_objects([(h.objs[i], None) for i in ids])
+                st.add_objects([(h.objs[i], None) for i in (reversed(ids) if reverse else ids)])
 
         def loose(ids):
             for i in ids:
@@ -464,16 +468,26 @@ def _ans(fn):
         return "!" + type(e).__name__
 
 
-def battery(h: Hist, repo, families=None, extra_ids=()):
+def battery(h: Hist, repo, families=None, extra_ids=(), only=None, list_only=False):
     """Run the fixed battery on an open Repo; returns {query-key: canonical answer}.  query-key is
     (family, args...) with short labels (c0, t1, b2, T, X ...) instead of ids, so keys are stable.
-    `families`: optional set restricting the battery (used by the damage phase)."""
+    `families`: optional set restricting the battery (damage phase, the octopus family; default
+    h.families).  `only`: predicate on the query key — nothing else is executed, not even set-up code
+    (live-first mode: ONE query on a long-lived Repo).  list_only: return {key: None} without
+    executing anything."""
     from dulwich.graph import can_fast_forward, find_merge_base
     from dulwich.object_store import MissingObjectFinder, find_shallow, get_depth
 
-    st = repo.object_store
+    st = repo.object_store if not list_only else None
     out = {}
     label = _labels(h)
+    if families is None:
+        families = h.families
+
+    def put(key, fn):
+        if only is not None and not only(key):
+            return
+        out[key] = None if list_only else _ans(fn)
 
     def L(x):
         if x is None:
@@ -499,33 +513,29 @@ def battery(h: Hist, repo, families=None, extra_ids=()):
                 o = st[oid]
                 return (o.type_name, zlib.crc32(o.as_raw_string()), o.id == oid)
 
-            out[("getitem", lb)] = _ans(getitem)
+            put(("getitem", lb), getitem)
         if want("contains"):
-            out[("contains", lb)] = _ans(lambda oid=oid: oid in st)
+            put(("contains", lb), lambda oid=oid: oid in st)
         if want("get_raw"):
-            out[("get_raw", lb)] = _ans(lambda oid=oid: (lambda t: (t[0], zlib.crc32(t[1])))(st.get_raw(oid)))
+            put(("get_raw", lb), lambda oid=oid: (lambda t: (t[0], zlib.crc32(t[1])))(st.get_raw(oid)))
     if want("iter"):
-        out[("iter",)] = _ans(lambda: S(set(st)))
+        put(("iter",), lambda: S(set(st)))
     # ---- parents
     cids = [c.id for c in h.commits] + [h.x.id, BOGUS]
     cl = [label[c] for c in cids]
     if want("parents"):
-        pp = _ans(repo.parents_provider)
         ex = [x for x in extra_ids if x not in h.ids and x != BOGUS]
         for c, lb in zip(cids + ex, cl + [label[x] for x in ex]):
-            if isinstance(pp, str):
-                out[("parents", lb)] = pp
-            else:
-                out[("parents", lb)] = _ans(lambda c=c: tuple(L(p) for p in pp.get_parents(c)))
+            put(("parents", lb), lambda c=c: tuple(L(p) for p in repo.parents_provider().get_parents(c)))
     # ---- ancestry
     for a, la in zip(cids, cl):
         for b, lb in zip(cids, cl):
             if "Z" in (la, lb) and not {la, lb} <= {"Z", "c0"}:
                 continue  # the never-existing id is paired with itself and with the root only
             if want("can_ff"):
-                out[("can_ff", la, lb)] = _ans(lambda a=a, b=b: bool(can_fast_forward(repo, a, b)))
+                put(("can_ff", la, lb), lambda a=a, b=b: bool(can_fast_forward(repo, a, b)))
             if la <= lb and want("merge_base"):
-                out[("merge_base", la, lb)] = _ans(lambda a=a, b=b: S(find_merge_base(repo, [a, b])))
+                put(("merge_base", la, lb), lambda a=a, b=b: S(find_merge_base(repo, [a, b])))
     # ---- walks: every single start and all branch tips together; every single exclusion
     present = [c.id for c in h.commits] + [h.x.id]
     tips = [h.commits[t].id for t in h.tips]
@@ -534,7 +544,7 @@ def battery(h: Hist, repo, families=None, extra_ids=()):
         for inc in incs:
             for exc in [()] + [(c,) for c in present if c not in inc]:
                 for order in ("date", "topo") if not exc else ("date",):
-                    out[("walk" if not exc else "walk+excl", tuple(label[x] for x in inc), tuple(label[x] for x in exc), order)] = _ans(
+                    put(("walk" if not exc else "walk+excl", tuple(label[x] for x in inc), tuple(label[x] for x in exc), order), 
                         lambda inc=inc, exc=exc, order=order: tuple(
                             L(e.commit.id) for e in repo.get_walker(include=list(inc), exclude=list(exc) or None, order=order)))
     # ---- shallow / depth / graph walker
@@ -546,9 +556,9 @@ def battery(h: Hist, repo, families=None, extra_ids=()):
                     s, ns = find_shallow(st, [c], depth)
                     return (S(s), S(ns))
 
-                out[("find_shallow", lb, depth)] = _ans(fs)
+                put(("find_shallow", lb, depth), fs)
         if want("get_depth"):
-            out[("get_depth", lb)] = _ans(lambda c=c: get_depth(st, c))
+            put(("get_depth", lb), lambda c=c: get_depth(st, c))
 
     def gw():
         w = repo.get_graph_walker()
@@ -563,7 +573,7 @@ def battery(h: Hist, repo, families=None, extra_ids=()):
         return tuple(seq)
 
     if want("graph_walker"):
-        out[("graph_walker",)] = _ans(gw)
+        put(("graph_walker",), gw)
     # ---- transfer: MissingObjectFinder for every (downset as haves, want)
     if want("mof"):
         wants = [(label[c.id], c.id) for c in h.commits] + [("T", h.tag.id), ("X", h.x.id)]
@@ -572,11 +582,11 @@ def battery(h: Hist, repo, families=None, extra_ids=()):
             haves = [h.commits[i].id for i in mx]
             hl = tuple("c%d" % i for i in mx)
             for wl, w in wants:
-                out[("mof", hl, wl)] = _ans(lambda haves=haves, w=w: S(
+                put(("mof", hl, wl), lambda haves=haves, w=w: S(
                     s for s, _ in MissingObjectFinder(st, haves=haves, wants=[w])))
-        out[("mof", ("X",), "c%d" % (h.n - 1))] = _ans(lambda: S(
+        put(("mof", ("X",), "c%d" % (h.n - 1)), lambda: S(
             s for s, _ in MissingObjectFinder(st, haves=[h.x.id], wants=[h.commits[h.n - 1].id])))
-        out[("mof", ("T",), "c%d" % (h.n - 1))] = _ans(lambda: S(
+        put(("mof", ("T",), "c%d" % (h.n - 1)), lambda: S(
             s for s, _ in MissingObjectFinder(st, haves=[h.tag.id], wants=[h.commits[h.n - 1].id])))
 
     # ---- reachability provider: single heads, pairs of (tips + X); no / every single exclusion
@@ -591,26 +601,26 @@ def battery(h: Hist, repo, families=None, extra_ids=()):
             el = None if exc is None else tuple(label[x] for x in exc)
             sfx = "" if exc is None else "+excl"
             if want("reach_commits"):
-                out[("reach_commits" + sfx, hl, el)] = _ans(lambda heads=heads, exc=exc: S(
+                put(("reach_commits" + sfx, hl, el), lambda heads=heads, exc=exc: S(
                     prov().get_reachable_commits(list(heads), exclude=list(exc) if exc else None)))
             if want("reach_objects"):
-                out[("reach_objects" + sfx, hl, el)] = _ans(lambda heads=heads, exc=exc: S(
+                put(("reach_objects" + sfx, hl, el), lambda heads=heads, exc=exc: S(
                     prov().get_reachable_objects(list(heads), exclude_commits=list(exc) if exc else None)))
     # ---- refs
     if want("refs"):
-        rf = repo.refs
-        out[("refs.as_dict",)] = _ans(lambda: tuple(sorted((k, L(v)) for k, v in rf.as_dict().items())))
-        out[("refs.keys",)] = _ans(lambda: tuple(sorted(rf.keys())))
-        out[("refs.as_dict", b"refs/heads")] = _ans(lambda: tuple(sorted((k, L(v)) for k, v in rf.as_dict(b"refs/heads").items())))
-        out[("refs.as_dict", b"refs/tags")] = _ans(lambda: tuple(sorted((k, L(v)) for k, v in rf.as_dict(b"refs/tags").items())))
+        rf = None if list_only else repo.refs
+        put(("refs.as_dict",), lambda: tuple(sorted((k, L(v)) for k, v in rf.as_dict().items())))
+        put(("refs.keys",), lambda: tuple(sorted(rf.keys())))
+        put(("refs.as_dict", b"refs/heads"), lambda: tuple(sorted((k, L(v)) for k, v in rf.as_dict(b"refs/heads").items())))
+        put(("refs.as_dict", b"refs/tags"), lambda: tuple(sorted((k, L(v)) for k, v in rf.as_dict(b"refs/tags").items())))
         names = sorted(set(initial_refs(h)) | {b"HEAD", b"refs/heads/nope"})
         for nm in names:
-            out[("refs.get", nm)] = _ans(lambda nm=nm: L(rf[nm]))
-            out[("refs.contains", nm)] = _ans(lambda nm=nm: nm in rf)
-            out[("refs.read_ref", nm)] = _ans(lambda nm=nm: L(rf.read_ref(nm)) if not (rf.read_ref(nm) or b"").startswith(b"ref:") else rf.read_ref(nm))
-            out[("get_peeled", nm)] = _ans(lambda nm=nm: L(repo.get_peeled(nm)))
-            out[("refs.get_peeled", nm)] = _ans(lambda nm=nm: L(rf.get_peeled(nm)))
-        out[("head",)] = _ans(lambda: L(repo.head()))
+            put(("refs.get", nm), lambda nm=nm: L(rf[nm]))
+            put(("refs.contains", nm), lambda nm=nm: nm in rf)
+            put(("refs.read_ref", nm), lambda nm=nm: L(rf.read_ref(nm)) if not (rf.read_ref(nm) or b"").startswith(b"ref:") else rf.read_ref(nm))
+            put(("get_peeled", nm), lambda nm=nm: L(repo.get_peeled(nm)))
+            put(("refs.get_peeled", nm), lambda nm=nm: L(rf.get_peeled(nm)))
+        put(("head",), lambda: L(repo.head()))
     return out
 
 
@@ -883,6 +893,7 @@ def _layout_key(layout):
     return {"pack1-v1": "idx-v1", "pack1-v3": "idx-v3"}.get(layout, "layout-" + layout)
 
 
+MODE_SUFFIX = {"fresh": "", "live": "+live", "live-first": "+live-first"}
 PACK_CLASS = {"loose": "0pack", "pack1": "1pack", "pack1-v1": "1pack", "pack1-v3": "1pack",
               "pack2": "split-packs", "mixed": "pack+loose", "pack2o": "overlapping-packs"}
 _GRAPH_DEPS = ("parents", "getitem", "contains")
@@ -912,7 +923,7 @@ def judge(acc: Acc, h: Hist, layout, config, step, mode, A, ref, explain, replay
     from (lookup, membership, parents, ref values) deviates in the same run: one root cause, one key
     (the masked classes are still counted as outcomes)."""
     d = diff(ref, A)
-    scen = STEP_CLASS[step] + ("+live" if mode == "live" else "")
+    scen = STEP_CLASS[step] + MODE_SUFFIX[mode]
     acc.count("configurations")
     acc.count("queries", len(A))
     cname = cfg_name(config)
@@ -1095,6 +1106,86 @@ def run_live(h: Hist, path, config, step, acc=None):
         r.close()
 
 
+# families whose queries are cheap: in live-first mode EVERY single query of them gets to be the first one
+# after the foreign step; the expensive families are each started once as a whole
+FIRST_PER_QUERY = frozenset(("getitem", "contains", "get_raw", "iter", "parents", "get_depth", "graph_walker", "refs.as_dict",
+                             "refs.keys", "refs.get", "refs.contains", "refs.read_ref", "get_peeled", "refs.get_peeled", "head"))
+
+
+def _forked(fn):
+    """Run fn() in a forked copy of this process (which inherits every in-memory cache as it is right now)
+    and return its picklable result; the parent's state is untouched."""
+    import pickle
+
+    rfd, wfd = os.pipe()
+    pid = os.fork()
+    if pid == 0:
+        status = 1
+        try:
+            os.close(rfd)
+            try:
+                data = pickle.dumps(("ok", fn()))
+            except BaseException as e:  # reported to the parent, which raises a HarnessError
+                data = pickle.dumps(("err", "%s: %r" % (type(e).__name__, e)))
+            view = memoryview(data)
+            while view:
+                view = view[os.write(wfd, view):]
+            status = 0
+        finally:
+            os._exit(status)
+    os.close(wfd)
+    chunks = []
+    while True:
+        c = os.read(rfd, 1 << 16)
+        if not c:
+            break
+        chunks.append(c)
+    os.close(rfd)
+    _, st = os.waitpid(pid, 0)
+    if st != 0 or not chunks:
+        raise HarnessError("forked query process failed (status %r)" % (st,))
+    kind, val = pickle.loads(b"".join(chunks))
+    if kind != "ok":
+        raise HarnessError("forked query process: " + val)
+    return val
+
+
+def run_live_first(h: Hist, path, config, step, acc=None):
+    """Like run_live, but after the foreign step EACH query gets to be the first thing the long-lived Repo
+    is asked: the warmed-up process is forked once per query (FIRST_PER_QUERY families) / once per family
+    (the others) and the child answers only that.  A cache that is revalidated by some queries and not by
+    others cannot hide behind the order of the battery this way.  Returns (answers, accelerators that
+    produced nothing)."""
+    r = _open(path)
+    pin = None
+    try:
+        empty = write_config(path, config, r)
+        battery(h, r)  # warms every cache
+        pin = _Pin(path)
+        _apply_step_observed(h, step, path)
+        keys = list(battery(h, None, list_only=True))
+        units = []
+        fams_done = set()
+        for k in keys:
+            if k[0] in FIRST_PER_QUERY:
+                units.append(lambda q, k=k: q == k)
+            elif k[0] not in fams_done:
+                fams_done.add(k[0])
+                units.append(lambda q, f=k[0]: q[0] == f)
+        out = {}
+        for sel in units:
+            out.update(_forked(lambda sel=sel: battery(h, r, only=sel)))
+        if acc is not None:
+            acc.count("first_query_forks", len(units))
+        if set(out) != set(keys):
+            raise HarnessError("live-first: the units do not cover the battery")
+        return {k: out[k] for k in keys}, empty
+    finally:
+        if pin:
+            pin.close()
+        r.close()
+
+
 _SNAP = {}
 
 
@@ -1197,17 +1288,23 @@ def _eval_configs(acc, h, layout, configs, steps, mode, work, refcache, standalo
         if k not in memo:
             if mode == "fresh":
                 memo[k] = _fresh_answers(h, layout, config, step, work, snap_cache, acc)
-            else:
+            elif mode == "live":
                 p = os.path.join(work, "live")
                 SS.restore(_base_snapshot(h, layout, work), p)
                 a1, a2, empty = run_live(h, p, config, step, acc)
                 memo[k] = (a1 if step is None else a2, empty)
+            else:
+                p = os.path.join(work, "live")
+                SS.restore(_base_snapshot(h, layout, work), p)
+                memo[k] = run_live_first(h, p, config, step, acc)
         return memo[k]
 
     for config in configs:
         fresh_seen = set()
         steps_ = list(steps)
-        if any(st is not None for st in steps_) and None not in steps_:
+        if mode == "live-first":
+            steps_ = [st for st in steps_ if st is not None]  # (only defined after a foreign step)
+        elif any(st is not None for st in steps_) and None not in steps_:
             steps_ = [None] + steps_  # (stand-alone replay of a stale scenario: same suppression as in the batch)
         steps_.sort(key=lambda st: st is not None)
         for step in steps_:
@@ -1233,7 +1330,7 @@ def _eval_configs(acc, h, layout, configs, steps, mode, work, refcache, standalo
                             acc.count("configurations")
                             continue
                 who = cfg_name(config) if config else _layout_key(layout)
-                key = _key("%s:%s:step:raises-%s" % (who, STEP_CLASS[step] + ("+live" if mode == "live" else ""), e.args[0]))
+                key = _key("%s:%s:step:raises-%s" % (who, STEP_CLASS[step] + MODE_SUFFIX[mode], e.args[0]))
                 acc.outcome(key)
                 acc.count("configurations")
                 if step in steps:
@@ -1250,8 +1347,8 @@ def _eval_configs(acc, h, layout, configs, steps, mode, work, refcache, standalo
                     A0, _ = answers((), step)
                 except (StepFailed, WriterFailed):
                     A0 = R  # (reported for the empty configuration itself)
-                if mode == "live":
-                    # a long-lived object without accelerators is the baseline of the live mode; its own
+                if mode != "fresh":
+                    # a long-lived object without accelerators is the baseline of the live modes; its own
                     # deviations from a fresh object are C10's business (readers vs repacks), not C14's
                     if A0 != R:
                         for q in diff(R, A0):
@@ -1265,7 +1362,7 @@ def _eval_configs(acc, h, layout, configs, steps, mode, work, refcache, standalo
                             explain.append((cfg_name((av,)), answers((av,), step)[0]))
                         except (StepFailed, WriterFailed):
                             pass
-            elif mode == "live":
+            elif mode != "fresh":
                 d0 = diff(R, A)
                 for q in d0:
                     acc.outcome("live-baseline-differs-from-fresh:%s:%s" % (STEP_CLASS[step], q[0]))
@@ -1362,17 +1459,39 @@ FIXTURES = (
     ("fork3", ((), (0,), (0,)), b"", "pack1"),
     ("chain2-prefix-of-chain3", ((), (0,)), b"", "pack1"),
     ("chain3-2packs", ((), (0,), (1,)), b"", "pack2"),
+    # twins: the same objects in identically NAMED packs whose objects were written in the opposite order
+    ("chain3-reversed-pack-order", ((), (0,), (1,)), b"", "pack1", "reversed"),
+    ("diamond4-2packs-reversed-pack-order", ((), (0,), (0,), (1, 2)), b"", "pack2", "reversed"),
 )
+N_BASE_FIXTURES = 6
+TWINS = {6: 0, 7: 2}  # fixture -> the fixture with the same pack names and another pack layout
+
+
+def foreign_pairs():
+    """Ordered (src, dst) pairs: all pairs of the base fixtures + every twin pair in both directions."""
+    out = [(a, b) for a in range(N_BASE_FIXTURES) for b in range(N_BASE_FIXTURES) if a != b]
+    for t, o in sorted(TWINS.items()):
+        out += [(t, o), (o, t)]
+    return out
+
+
+def _pack_layouts(path):
+    """{pack name: {object id: offset}} of the repository at path."""
+    r = _open(path)
+    try:
+        return {os.path.basename(p._basename): {e[0]: e[1] for e in p.index.iterentries()} for p in r.object_store.packs}
+    finally:
+        r.close()
 
 
 def _fixture(idx, work, writer):
     """Build fixture repo idx with all object-store accelerators written by `writer` ('d' | 'g');
     returns (history, path)."""
-    name, dag, salt, layout = FIXTURES[idx]
+    name, dag, salt, layout = FIXTURES[idx][:4]
     h = history(dag, salt)
     p = os.path.join(work, "fx%d%s" % (idx, writer))
     if not os.path.exists(p):
-        build_layout(h, layout, p)
+        build_layout(h, layout, p, reverse=FIXTURES[idx][4:] == ("reversed",))
         if writer == "d":
             write_config(p, (("cg", "d"), ("midx", "d"), ("bitmap", "d")))
         else:
@@ -1392,10 +1511,19 @@ def case_foreign(acc: Acc, src, dst, kind, writer):
         hs, ps = _fixture(src, work, writer)
         if writer == "g" and kind == "bitmap":
             write_accel(ps, "bitmap", "g")
-        name_d, dag_d, salt_d, layout_d = FIXTURES[dst]
+        name_d, dag_d, salt_d, layout_d = FIXTURES[dst][:4]
         hd = history(dag_d, salt_d)
         pd = os.path.join(work, "dst")
-        build_layout(hd, layout_d, pd)
+        build_layout(hd, layout_d, pd, reverse=FIXTURES[dst][4:] == ("reversed",))
+        if TWINS.get(src) == dst or TWINS.get(dst) == src:
+            # vacuity: the twins must really have identically named packs with different offsets
+            ls, ld = _pack_layouts(ps), _pack_layouts(pd)
+            if kind != "bitmap" or writer == "d":  # (git repack -adb of the source renames its packs)
+                if set(ls) != set(ld):
+                    raise HarnessError("twin fixtures: pack names differ: %r vs %r" % (sorted(ls), sorted(ld)))
+                if all(ls[n] == ld[n] for n in ls):
+                    raise HarnessError("twin fixtures: identical pack layouts")
+                acc.outcome("foreign:twin-packs:same-names-different-offsets")
         extra = tuple(sorted(set(hs.ids) - set(hd.ids)))
         r = _open(pd)
         try:
@@ -1441,13 +1569,25 @@ def _judge_untrusted(acc, who, scen, A, R, what, replay, judged=True):
     if not d:
         acc.outcome("%s:%s:same-answers" % (who, scen.split("@")[0]))
         return
-    dev_fams = {q[0] for q, (r, g) in d.items() if not _rejection(g)}
+
+    def _rejection(g, q=None):
+        """Is the exception g a rejection of the FILE?  For the per-object families the file has only been
+        rejected if the same question about the id that never existed ('Z') fails the same way — an error
+        that hits exactly the objects the file talks about means the file was believed and the object
+        could then not be read (e.g. a foreign multi-pack-index whose offsets are used)."""
+        if not _rejection_exc(g):
+            return False
+        if judged and q is not None and q[0] in PER_OBJECT_FAMILIES and len(q) == 2 and q[1] != "Z":
+            return A.get((q[0], "Z")) == g
+        return True
+
+    dev_fams = {q[0] for q, (r, g) in d.items() if not _rejection(g, q)}
     dev_preds = {(q[0], predicate(r, g)) for q, (r, g) in d.items()}
     seen = set()
     rejected = False
     for q, (r, g) in sorted(d.items(), key=lambda kv: repr(kv[0])):
         fam = q[0]
-        if _rejection(g):
+        if _rejection(g, q):
             rejected = True
             if g.startswith("!!"):
                 acc.outcome("%s:%s:rejected-with-%s" % (who, scen.split("@")[0], g[2:]))
@@ -1474,7 +1614,10 @@ def _judge_untrusted(acc, who, scen, A, R, what, replay, judged=True):
         acc.outcome("%s:%s:rejected-with-ordinary-error" % (who, scen.split("@")[0]))
 
 
-def _rejection(g):
+PER_OBJECT_FAMILIES = ("getitem", "get_raw", "contains", "parents")
+
+
+def _rejection_exc(g):
     """An exception that is not an answer of the query.  MemoryError / RecursionError ('!!') are rejections
     too as far as C14 goes (containment of hostile input is property C04); they get their own outcome class."""
     return _is_exc(g) and g.lstrip("!") not in REJECT_IS_ANSWER
@@ -1808,11 +1951,12 @@ def run(ctx):
     bounds["steps"] = list(QUICK_STEPS if q else STEPS)
     bounds["live steps"] = list(QUICK_LIVE_STEPS if q else QUICK_STEPS)
     # ---- foreign
-    n = len(FIXTURES)
-    pairs = [(s, d, k, w) for w in (("d",) if q else ("d", "g")) for s in range(n) for d in range(n) if s != d
-             for k in (("cg", "midx", "bitmap") if w == "d" or True else ())]
+    fp = foreign_pairs()
+    pairs = [(s, d, k, w) for w in (("d",) if q else ("d", "g")) for (s, d) in fp for k in ("cg", "midx", "bitmap")]
     ftasks = [("foreign", part) for part in split(ctx.order(pairs), max(1, min(len(pairs), J * 2)))]
-    bounds["foreign"] = "%d ordered pairs of %d fixtures x {cg, midx, bitmap} x writers %s" % (n * (n - 1), n, "dulwich" if q else "dulwich, C git")
+    bounds["foreign"] = ("%d ordered pairs (all pairs of %d fixtures + %d twin pairs: same objects in identically named packs "
+                         "written in the opposite order) x {cg, midx, bitmap} x writers %s"
+                         % (len(fp), N_BASE_FIXTURES, 2 * len(TWINS), "dulwich" if q else "dulwich, C git"))
     # ---- damage
     dtasks = []
     dcount = {}
